@@ -1,4 +1,4 @@
-(* Site inventory anchor (memo): remembered values are set by Expression/ExpressionAtom.Evaluate only and cleared only by ResetAll (Execute / Fetch preamble), ResetVariable / ResetElement (assignments; ResetElement = ResetVariable on the element and on the may-alias element variables of the same container, Eval.reset_assigned) and Reset (Forget/Changed).
+(* Site inventory anchor (memo): remembered values are set by Expression/ExpressionAtom.Evaluate only and cleared only by ResetAll (Execute / Fetch preamble), ResetAssigned (assignments: ResetVariable on the assigned variable and on every variable whose access path may denote the same location, Eval.reset_assigned; ResetElement delegates to it) and Reset (Forget/Changed).
    The expected list below is what the hand-written model was written against;
    tools/go2coq regenerates SitesGen.sites_memo from /repo on every run. *)
 From Grule Require Import Base SitesGen.
@@ -9,8 +9,7 @@ Lemma sites_memo_ok : sites_memo = [
   ("ast/BuiltInFunctions.Forget", "call .WorkingMemory Reset/1", 1%nat);
   ("ast/Expression.Evaluate", "Evaluated=true", 5%nat);
   ("ast/ExpressionAtom.Evaluate", "Evaluated=true", 5%nat);
-  ("ast/Variable.Assign", "call ResetVariable", 2%nat);
-  ("ast/Variable.Assign", "call ResetElement", 2%nat);
+  ("ast/Variable.Assign", "call ResetAssigned", 4%nat);
   ("ast/WorkingMemory.Reset", "range variableSnapshotMap", 1%nat);
   ("ast/WorkingMemory.Reset", "call ResetVariable", 1%nat);
   ("ast/WorkingMemory.Reset", "range expressionSnapshotMap", 1%nat);
@@ -18,8 +17,9 @@ Lemma sites_memo_ok : sites_memo = [
   ("ast/WorkingMemory.Reset", "range expressionAtomSnapshotMap", 1%nat);
   ("ast/WorkingMemory.ResetVariable", "range local", 2%nat);
   ("ast/WorkingMemory.ResetVariable", "Evaluated=false", 2%nat);
-  ("ast/WorkingMemory.ResetElement", "call ResetVariable", 2%nat);
-  ("ast/WorkingMemory.ResetElement", "range variableSnapshotMap", 1%nat);
+  ("ast/WorkingMemory.ResetAssigned", "call ResetVariable", 2%nat);
+  ("ast/WorkingMemory.ResetAssigned", "range variableSnapshotMap", 1%nat);
+  ("ast/WorkingMemory.ResetElement", "call ResetAssigned", 1%nat);
   ("ast/WorkingMemory.ResetAll", "range expressionSnapshotMap", 1%nat);
   ("ast/WorkingMemory.ResetAll", "Evaluated=false", 2%nat);
   ("ast/WorkingMemory.ResetAll", "range expressionAtomSnapshotMap", 1%nat);
